@@ -222,6 +222,13 @@ def check(case):
     fine.integrate()
     y_fine = np.asarray(fine.y)[-1]
     err_ref = float(np.max(np.abs(y_ref[-1] - y_fine)))
+    # the end error of the fault-free run can be small by cancellation (seen: 2.4e-8 where single steps err by 6e-8): the
+    # baseline is the larger of it and (number of steps) x (error of the first step)
+    if len(t_ref) >= 2:
+        one = de.OdeSystem(lambda t, y, **kw: ref.f(t, y), y0=ref.y0.copy(), t=(case["t0"], float(t_ref[1])), dt=0.05, rtol=1e-11, atol=1e-11)
+        one.method = M.get("RK8713MSolver")
+        one.integrate()
+        err_ref = max(err_ref, (len(t_ref) - 1) * float(np.max(np.abs(y_ref[1] - np.asarray(one.y)[-1]))))
     viols = []
     deep = 0
     double = 0
